@@ -29,7 +29,7 @@ func init() {
 	reg.Register(runner.Check{
 		ID:    "C12",
 		Level: "exploration",
-		Rule: "exhaustive enumeration against the real socks5 server (serverServeConn, RunUDPAssociateLoop, runUDPAssociateDatagramLoop): destinations = boundary addresses of 127/8, 10/8, 172.16/12, 192.168/16, fc00::/7, ::1 in IPv4, IPv6 and IPv4-mapped form, 0.0.0.0, ::, zero-length domain, the eight well-known local names in lower/UPPER/Mixed case, public controls just outside every block; " +
+		Rule: "exhaustive enumeration against the real socks5 server (serverServeConn, RunUDPAssociateLoop, runUDPAssociateDatagramLoop): destinations = boundary addresses of 127/8, 10/8, 172.16/12, 192.168/16, fc00::/7, ::1 in IPv4, IPv6 and IPv4-mapped form, 0.0.0.0, ::, zero-length domain, the eight well-known local names in lower/UPPER/Mixed case and with a trailing dot, IP addresses written as text in the domain-name field, public controls just outside every block; " +
 			"commands {CONNECT, UDP ASSOCIATE (both relay modes) with every destination again as relayed datagram header}; users {unknown, registered without flags, allowPrivateIP, allowLoopbackIP, both}; egress rule lists of <=2 rules from {10/8 REJECT, * DIRECT, * REJECT, * PROXY, suffix-domain REJECT, suffix-domain PROXY} in both orders; oracle = reference policy from the statement, observed as reply code and as the log of every dial / sendto the server attempted. distinct = distinct (destination, command, user, rule list)",
 		Assumptions: []string{
 			"Go's documented dial semantics are implemented by the vnet shim: an empty host or an unspecified address reaches the local system; local host names resolve case-insensitively to loopback, as the system resolver does",
@@ -83,6 +83,17 @@ func dests() []dest {
 			ds = append(ds, dest{"name " + v, 3, dom(v), "local-name"})
 		}
 	}
+	// an IP address written as text in the domain-name field is dialed as that address; a trailing
+	// dot does not change the host a name refers to
+	for _, t := range [][2]string{{"127.0.0.1", "loopback"}, {"127.255.255.255", "loopback"}, {"::1", "loopback"}, {"::ffff:127.0.0.1", "loopback"},
+		{"10.1.2.3", "private"}, {"192.168.0.1", "private"}, {"172.31.255.255", "private"}, {"fd00::1", "private"},
+		{"0.0.0.0", "unspecified"}, {"::", "unspecified"}, {"93.184.216.34", "public"}, {"2001:db8::1", "public"}} {
+		ds = append(ds, dest{"name(text) " + t[0], 3, dom(t[0]), t[1]})
+	}
+	for _, n := range []string{"localhost.", "LOCALHOST.", "ip6-localhost.", "Localhost6.Localdomain6."} {
+		ds = append(ds, dest{"name " + n, 3, dom(n), "local-name"})
+	}
+	ds = append(ds, dest{"name example.com.", 3, dom("example.com."), "public"})
 	ds = append(ds, dest{"name example.com", 3, dom("example.com"), "public"}, dest{"name sub.blocked.example", 3, dom("sub.blocked.example"), "public"}, dest{"name localhost.example.com", 3, dom("localhost.example.com"), "public"})
 	return ds
 }
@@ -148,6 +159,10 @@ func (c userConn) UserName() string { return c.name }
 type resolver struct{}
 
 func (resolver) LookupIP(ctx context.Context, network, host string) ([]net.IP, error) {
+	// like the system resolver: an IP address in text form resolves to itself
+	if ip := net.ParseIP(host); ip != nil {
+		return []net.IP{ip}, nil
+	}
 	if ips, ok := hosts[strings.ToLower(strings.TrimSuffix(host, "."))]; ok {
 		return ips, nil
 	}
